@@ -914,9 +914,15 @@ func (c *c20Case) finalChecks(when string) {
 }
 
 func c20RunProtocolCase(t *testing.T, rt *rapid.T, dir string) {
-	knownBusy := vkKnown("F-C20-1") || strings.Contains(os.Getenv("C20_EXCL"), "restore")
-	knownClear := vkKnown("F-C20-2") || strings.Contains(os.Getenv("C20_EXCL"), "clear")
+	// C20_FORCE_FINE=1 keeps the fine-grained parking on even for known findings
+	// (to watch the search find them); C20_EXCL is for experiments.
+	force := os.Getenv("C20_FORCE_FINE") != ""
+	knownBusy := (vkKnown("F-C20-1") && !force) || strings.Contains(os.Getenv("C20_EXCL"), "restore")
+	knownClear := (vkKnown("F-C20-2") && !force) || strings.Contains(os.Getenv("C20_EXCL"), "clear")
 	fine := rapid.IntRange(0, 2).Draw(rt, "fine") > 0
+	if c20NoFine {
+		fine = false
+	}
 	nSteps := rapid.IntRange(4, 70).Draw(rt, "steps")
 	if vkThorough() {
 		nSteps = rapid.IntRange(4, 160).Draw(rt, "steps_thorough")
@@ -935,6 +941,28 @@ func c20RunProtocolCase(t *testing.T, rt *rapid.T, dir string) {
 	var failure string
 	var wedged bool
 
+	var stuck any
+	func() {
+		defer func() {
+			// goroutines of the real code that can never finish (e.g. a retirement
+			// that is never reported done) make synctest.Test panic after the case
+			if r := recover(); r != nil {
+				if strings.Contains(fmt.Sprint(r), "blocked goroutines remain") {
+					stuck = r
+					return
+				}
+				panic(r)
+			}
+		}()
+		c20RunProtocolBubble(t, rt, c, nSteps, &failure, &wedged)
+	}()
+	c20FinishProtocolCase(rt, c, failure, wedged, stuck, knownBusy, knownClear)
+}
+
+func c20RunProtocolBubble(t *testing.T, rt *rapid.T, c *c20Case, nSteps int, failureP *string, wedgedP *bool) {
+	var failure string
+	var wedged bool
+	defer func() { *failureP, *wedgedP = failure, wedged }()
 	c20InBubble(t, func() {
 		if err := c20ResetSuppression(); err != nil {
 			failure = "before the case: " + err.Error()
@@ -1059,9 +1087,14 @@ func c20RunProtocolCase(t *testing.T, rt *rapid.T, dir string) {
 		time.Sleep(c20Quiesce + time.Second)
 		c.checkMuting("after the quiesce window")
 	})
+}
 
+func c20FinishProtocolCase(rt *rapid.T, c *c20Case, failure string, wedged bool, stuck any, knownBusy, knownClear bool) {
 	c.mu.Lock()
 	defer c.mu.Unlock()
+	if failure == "" && c.viol == "" && !wedged && stuck != nil {
+		failure = fmt.Sprintf("goroutines of the reload machinery are blocked for ever after the history (%v)", stuck)
+	}
 	if failure == "" && wedged {
 		failure = fmt.Sprintf("no quiescence: request in progress %s never finished (pending=%v active=%v reloading=%v)",
 			c.ownerNameOf(c.owner), c.m.reloadPending.Load(), c.m.reloadActive.Load(), c.m.reloading.Load())
@@ -1125,9 +1158,23 @@ func c20WriteConfigs(t *testing.T) string {
 	return dir
 }
 
+// c20NoFine: no parking inside the progress-file accesses of the real primitives.
+// Set when the tree serialises those accesses with the admission (e.g. a lock held
+// across them, the obvious repair of F-C20-1/2): a goroutine parked inside would
+// keep the others waiting on that lock, and synctest.Wait cannot treat a goroutine
+// blocked on a mutex as quiescent. Detected with the F-C20-1 scenario.
+var c20NoFine bool
+
 func TestC20_Protocol(t *testing.T) {
 	c20InstallSeams(t)
 	dir := c20WriteConfigs(t)
+	c20NoFine = os.Getenv("C20_NO_FINE") != ""
+	if !c20NoFine {
+		if probe := c20RunFinding1(); probe.harness == "" && probe.waited {
+			c20NoFine = true
+			vkNote(c20UnitProtocol, "release waits for a refusal that is inside its progress-file access: accesses are serialised in this tree, fine-grained parking switched off")
+		}
+	}
 	rapid.Check(t, func(rt *rapid.T) {
 		c20RunProtocolCase(t, rt, dir)
 	})
